@@ -488,6 +488,8 @@ CatalogFragment::CatalogFragment(DFS::Format format,
       }
     for (const auto& entry : entries())
       {
+	if (entry.file_length() == 0)
+	  continue;		// occupies no sectors
 	ParsedFileName file_name;
 	file_name.vol = vol;
 	file_name.dir = entry.directory();
